@@ -386,10 +386,24 @@ def l123(prog):
                 raise Broken("emplace not found in CFG of %s" % q)
 
             def empty_true(n, lab):
-                if n.kind != "cond" or lab is not True:
+                """the edge on which the optional body guard is known to be empty: `m_sg == nullopt` true, `m_sg != nullopt`
+                false, `(bool) m_sg` / `m_sg.has_value ()` false (the CFG has already split off any `!`)"""
+                if n.kind != "cond" or lab not in (True, False) or not isinstance(n.ast, dict):
                     return False
-                return any(y.get("k") == "mem" and y["n"] == "m_sg" for y in walk(n.ast)) and \
-                    any((y.get("k") == "ref" and y.get("n") == "nullopt") or (y.get("k") == "ctor" and "nullopt" in y.get("c", "")) for y in walk(n.ast))
+                a = unwrap(n.ast)
+                if not isinstance(a, dict):
+                    return False
+                is_sg = lambda z: isinstance(unwrap(z), dict) and unwrap(z).get("k") == "mem" and unwrap(z)["n"] == "m_sg"
+                is_nullopt = lambda z: isinstance(unwrap(z), dict) and ((unwrap(z).get("k") == "ref" and unwrap(z).get("n") == "nullopt") or
+                                                                   (unwrap(z).get("k") == "ctor" and "nullopt" in unwrap(z).get("c", "")))
+                if a.get("k") == "call" and a.get("op") in ("==", "!=") and len(a.get("a", [])) == 2:
+                    x, y = a["a"]
+                    if (is_sg(x) and is_nullopt(y)) or (is_sg(y) and is_nullopt(x)):
+                        return lab is (a["op"] == "==")
+                    return False
+                if a.get("k") == "call" and a.get("fn") in ("operator bool", "has_value") and a.get("obj") is not None and is_sg(a["obj"]):
+                    return lab is False
+                return False
             r = g.reachable(edge_ok=lambda n, t, lab: not empty_true(n, lab))
             if en[0].id in r:
                 problems.append("body guard is emplaced at %s on a path where the previous one may still be alive (not dominated by `m_sg == nullopt`)" % e["l"])
